@@ -9,6 +9,27 @@
 (* Properties C03 / C04: clients never see a redirection, every reply      *)
 (* equals the reply of a single server holding all data, every command is  *)
 (* executed exactly once, each key has at most one copy.                   *)
+(*                                                                         *)
+(* Three mechanisms of the proxy are explicit because regressions live in  *)
+(* them:                                                                   *)
+(*  - the refresher rewrites the routing table entry by entry while the    *)
+(*    session goroutines read it without a lock (StepwiseRefresh; the      *)
+(*    timer of loopRefreshSlots is Tick). ClearBeforeFill is the broken    *)
+(*    variant that empties the table first: a loaded table on a stable     *)
+(*    cluster then looks unloaded for a moment (FirstHopIsOwner fails).    *)
+(*  - backend connections are made on first use (LazyConnect: hasConn).    *)
+(*    The reader of the connection that received MOVED / ASK resends the   *)
+(*    request itself, dialling the target if need be, so redirected        *)
+(*    requests reach the target in the order the source answered them.     *)
+(*    AsyncRedirectDial is the broken variant in which a redirection to a  *)
+(*    node without a connection is resent from a goroutine of its own      *)
+(*    (parked): RedirectKeepsOrder fails.                                  *)
+(*  - a master replaced in a failover may stay alive as a replica of its   *)
+(*    successor (WithDemotion). The code sends READONLY on every backend   *)
+(*    connection (ReadonlyEverywhere), so the demoted node answers reads   *)
+(*    itself while writes are redirected: a read overtakes the redirected  *)
+(*    write issued before it (RedirectKeepsOrder fails; finding C04        *)
+(*    stale-read/pipelined-read-served-by-demoted-master).                 *)
 (***************************************************************************)
 EXTENDS Naturals, Sequences, FiniteSets, TLC
 
@@ -20,7 +41,15 @@ CONSTANTS Nodes,        \* master nodes (naturals)
           EmptyTableAtStart, \* the proxy starts without routing information
           AtomicAsk,    \* TRUE: ASKING and the command are enqueued atomically (repaired design)
           WithFailover, \* allow one master to be replaced by a standby node (its replica) and to die
-          FixRefreshOnDialError \* TRUE: a failed connect to a backend triggers a table refresh (repaired code)
+          FixRefreshOnDialError, \* TRUE: a failed connect to a backend triggers a table refresh (repaired code)
+          StepwiseRefresh, \* TRUE: the table is rewritten slot by slot, commands are routed in between (as the code does)
+          ClearBeforeFill, \* TRUE (broken variant): the refresher empties the whole table before it rewrites it
+          MaxTicks,        \* how often the refresh timer fires although nothing asked for a refresh
+          LazyConnect,     \* TRUE: at start the proxy has a backend connection to one seed node only
+          AsyncRedirectDial, \* TRUE (broken variant): a redirection to a node without a connection is resent by its own goroutine
+          TrackOrder,      \* TRUE: requests remember the nodes they were sent to (RedirectKeepsOrder)
+          WithDemotion,    \* TRUE: the master replaced in a failover stays alive as a replica of its successor
+          ReadonlyEverywhere \* TRUE (the code): READONLY is sent on every backend connection, so a demoted master serves reads
 
 Absent == 0            \* values are request ids (>= 1)
 OKReply == 1000
@@ -41,9 +70,18 @@ VARIABLES
               \* several migrations of the same slot misbehaves with any Redis Cluster client)
   up,         \* up[n]: node n is reachable
   refreshes,  \* number of table refreshes so far
-  failAt      \* value of `refreshes` when the failover happened (requests routed before the next refresh may fail)
+  failAt,     \* value of `refreshes` when the failover happened (requests routed before the next refresh may fail)
+  snap,       \* refresher: the layout it read from CLUSTER NODES and is writing into the table
+  todo,       \* refresher: slots it has not rewritten yet ({} = no refresh in progress)
+  ticks,      \* firings of the refresh timer so far
+  hasConn,    \* hasConn[n]: the proxy has a backend connection to node n
+  parked,     \* AsyncRedirectDial: redirected requests held by a goroutine of their own: [r, t, ask]
+  replicaOf   \* replicaOf[n]: the master node n replicates (NoNode for masters); reads are served from the master's data
 
-vars == <<owner, mig, store, table, needRefresh, q, asking, reqs, ref, migs, up, refreshes, failAt>>
+aux == <<snap, todo, ticks, hasConn, parked, replicaOf>>
+vars == <<owner, mig, store, table, needRefresh, q, asking, reqs, ref, migs, up, refreshes, failAt, aux>>
+
+ASSUME AsyncRedirectDial => AtomicAsk
 
 ErrReply == 998
 
@@ -62,6 +100,11 @@ Init ==
   /\ migs = 0
   /\ up = [n \in Nodes |-> TRUE]
   /\ refreshes = 0 /\ failAt = 0
+  /\ snap = [s \in Slots |-> NoNode] /\ todo = {} /\ ticks = 0
+  /\ hasConn \in [Nodes -> BOOLEAN]
+  /\ IF LazyConnect THEN Cardinality({n \in Nodes : hasConn[n]}) = 1 ELSE \A n \in Nodes : hasConn[n]
+  /\ parked = {}
+  /\ replicaOf = [n \in Nodes |-> NoNode]
 
 Enq(qq, n, item) == [qq EXCEPT ![n] = Append(@, item)]
 
@@ -73,59 +116,91 @@ Issue(op, k) ==
      IN \E n \in Nodes :
           /\ (table[s] # NoNode => n = table[s])
           /\ reqs' = Append(reqs, [op |-> op, k |-> k, val |-> r, st |-> "inflight", reply |-> NoReply,
-                                   exp |-> NoReply, hops |-> 0, applied |-> 0, askTo |-> NoNode, at |-> refreshes])
+                                   exp |-> NoReply, hops |-> 0, applied |-> 0, askTo |-> NoNode, at |-> refreshes,
+                                   path |-> IF TrackOrder THEN <<n>> ELSE <<>>])
           /\ q' = Enq(q, n, [t |-> "cmd", r |-> r])
-  /\ UNCHANGED <<owner, mig, store, table, needRefresh, asking, ref, migs, up, refreshes, failAt>>
+          /\ hasConn' = [hasConn EXCEPT ![n] = TRUE]
+  /\ UNCHANGED <<owner, mig, store, table, needRefresh, asking, ref, migs, up, refreshes, failAt, snap, todo, ticks, parked, replicaOf>>
 
 \* what node n answers to request r (asking flag af): "serve" | <<"moved", n2>> | <<"ask", n2>>
-Decide(n, k, af) ==
+\* a replica answers reads for the slots of its master itself on a READONLY connection (data of the master: no lag)
+DecideOp(n, k, af, op) ==
   LET s == SlotOf[k] IN
-  IF owner[s] = n
+  IF replicaOf[n] # NoNode /\ replicaOf[n] = owner[s] /\ op = "read" /\ ReadonlyEverywhere
+    THEN <<"serve", replicaOf[n]>>
+  ELSE IF owner[s] = n
     THEN IF mig[s] # <<>> /\ mig[s][1] = n /\ store[n][k] = Absent
            THEN <<"ask", mig[s][2]>>
            ELSE <<"serve", n>>
     ELSE IF mig[s] # <<>> /\ mig[s][2] = n /\ af
            THEN <<"serve", n>>
            ELSE <<"moved", owner[s]>>
+Decide(n, k, af) == DecideOp(n, k, af, "write")
 
 (* node n processes the head of the proxy's connection *)
+Path(rq, t) == IF TrackOrder THEN Append(rq.path, t) ELSE rq.path
 NodeExec(n) ==
   /\ up[n] /\ q[n] # <<>>
   /\ LET h == Head(q[n]) IN
      IF h.t = "asking"
        THEN /\ asking' = [asking EXCEPT ![n] = TRUE]
             /\ q' = [q EXCEPT ![n] = Tail(@)]
-            /\ UNCHANGED <<store, reqs, ref, needRefresh>>
+            /\ UNCHANGED <<store, reqs, ref, needRefresh, hasConn, parked>>
        ELSE
          LET r == h.r
              rq == reqs[r]
-             d == Decide(n, rq.k, asking[n])
+             d == DecideOp(n, rq.k, asking[n], rq.op)
          IN /\ asking' = [asking EXCEPT ![n] = FALSE]
-            /\ CASE d[1] = "serve" ->
+            /\ CASE d[1] = "serve" ->   \* d[2]: the node whose data is used (n itself, or the master n replicates)
                       /\ IF rq.op = "write"
                            THEN /\ store' = [store EXCEPT ![n][rq.k] = rq.val]
                                 /\ ref' = [ref EXCEPT ![rq.k] = rq.val]
                                 /\ reqs' = [reqs EXCEPT ![r].st = "done", ![r].reply = OKReply, ![r].exp = OKReply,
                                                          ![r].applied = @ + 1]
-                           ELSE /\ reqs' = [reqs EXCEPT ![r].st = "done", ![r].reply = store[n][rq.k],
+                           ELSE /\ reqs' = [reqs EXCEPT ![r].st = "done", ![r].reply = store[d[2]][rq.k],
                                                          ![r].exp = ref[rq.k], ![r].applied = @ + 1]
                                 /\ UNCHANGED <<store, ref>>
                       /\ q' = [q EXCEPT ![n] = Tail(@)]
-                      /\ UNCHANGED needRefresh
-                 [] d[1] = "moved" ->   \* handleRedirection: resend to the named node, trigger a refresh
-                      /\ q' = Enq([q EXCEPT ![n] = Tail(@)], d[2], [t |-> "cmd", r |-> r])
-                      /\ reqs' = [reqs EXCEPT ![r].hops = @ + 1]
+                      /\ UNCHANGED <<needRefresh, hasConn, parked>>
+                 [] d[1] \in {"moved", "ask"} /\ AsyncRedirectDial /\ ~hasConn[d[2]] ->
+                      \* broken variant: no connection to the target yet - the resend (and the dial) is left to a
+                      \* goroutine of its own, the reader of node n's connection goes on with the next reply
+                      /\ parked' = parked \cup {[r |-> r, t |-> d[2], ask |-> (d[1] = "ask")]}
+                      /\ q' = [q EXCEPT ![n] = Tail(@)]
+                      /\ reqs' = [reqs EXCEPT ![r].hops = @ + 1, ![r].path = Path(rq, d[2])]
                       /\ needRefresh' = TRUE
-                      /\ UNCHANGED <<store, ref>>
-                 [] d[1] = "ask" ->     \* ASKING is enqueued now, the command by a second, separate send
+                      /\ UNCHANGED <<store, ref, hasConn>>
+                 [] d[1] = "moved" /\ ~(AsyncRedirectDial /\ ~hasConn[d[2]]) ->
+                      \* handleRedirection: the reader of node n's connection resends to the named node itself
+                      \* (it dials if there is no connection yet), then triggers a refresh
+                      /\ q' = Enq([q EXCEPT ![n] = Tail(@)], d[2], [t |-> "cmd", r |-> r])
+                      /\ reqs' = [reqs EXCEPT ![r].hops = @ + 1, ![r].path = Path(rq, d[2])]
+                      /\ hasConn' = [hasConn EXCEPT ![d[2]] = TRUE]
+                      /\ needRefresh' = TRUE
+                      /\ UNCHANGED <<store, ref, parked>>
+                 [] d[1] = "ask" /\ ~(AsyncRedirectDial /\ ~hasConn[d[2]]) ->
+                      \* AtomicAsk: the backend writer emits ASKING and the command back to back;
+                      \* pinned design: ASKING is enqueued now, the command by a second, separate send
                       /\ IF AtomicAsk
                            THEN /\ q' = Enq(Enq([q EXCEPT ![n] = Tail(@)], d[2], [t |-> "asking", r |-> r]), d[2], [t |-> "cmd", r |-> r])
-                                /\ reqs' = [reqs EXCEPT ![r].hops = @ + 1]
+                                /\ reqs' = [reqs EXCEPT ![r].hops = @ + 1, ![r].path = Path(rq, d[2])]
                            ELSE /\ q' = Enq([q EXCEPT ![n] = Tail(@)], d[2], [t |-> "asking", r |-> r])
-                                /\ reqs' = [reqs EXCEPT ![r].hops = @ + 1, ![r].st = "askpending", ![r].askTo = d[2]]
+                                /\ reqs' = [reqs EXCEPT ![r].hops = @ + 1, ![r].st = "askpending", ![r].askTo = d[2],
+                                                         ![r].path = Path(rq, d[2])]
+                      /\ hasConn' = [hasConn EXCEPT ![d[2]] = TRUE]
                       /\ needRefresh' = TRUE
-                      /\ UNCHANGED <<store, ref>>
-  /\ UNCHANGED <<owner, mig, table, migs, up, refreshes, failAt>>
+                      /\ UNCHANGED <<store, ref, parked>>
+  /\ UNCHANGED <<owner, mig, table, migs, up, refreshes, failAt, snap, todo, ticks, replicaOf>>
+
+(* broken variant only: one of the goroutines holding a redirected request gets the connection to the *)
+(* target (they all wait for the same dial) and sends - in whatever order the scheduler picks them     *)
+ParkedResend(p) ==
+  /\ p \in parked
+  /\ parked' = parked \ {p}
+  /\ hasConn' = [hasConn EXCEPT ![p.t] = TRUE]
+  /\ q' = IF p.ask THEN Enq(Enq(q, p.t, [t |-> "asking", r |-> p.r]), p.t, [t |-> "cmd", r |-> p.r])
+                   ELSE Enq(q, p.t, [t |-> "cmd", r |-> p.r])
+  /\ UNCHANGED <<owner, mig, store, table, needRefresh, asking, reqs, ref, migs, up, refreshes, failAt, snap, todo, ticks, replicaOf>>
 
 (* the proxy cannot connect to node n (it is down): every request queued for it is answered with *)
 (* an error; the repaired code also asks for a refresh of the routing table                      *)
@@ -139,51 +214,81 @@ DialError(n) ==
                                       ![h.r].exp = IF reqs[h.r].at <= failAt THEN ErrReply ELSE NoReply]
             ELSE UNCHANGED reqs
   /\ needRefresh' = (needRefresh \/ FixRefreshOnDialError)
-  /\ UNCHANGED <<owner, mig, store, table, asking, ref, migs, up, refreshes, failAt>>
+  /\ UNCHANGED <<owner, mig, store, table, asking, ref, migs, up, refreshes, failAt, aux>>
 
 (* failover: standby node m (owns nothing, holds nothing - it mirrors n) takes over the slots and *)
 (* the data of master n, which dies                                                                *)
 Failover(n, m) ==
-  /\ WithFailover /\ n # m /\ up[n] /\ up[m] /\ \A x \in Nodes : up[x]
+  /\ WithFailover /\ n # m /\ up[n] /\ up[m] /\ \A x \in Nodes : up[x] /\ replicaOf[x] = NoNode   \* one failover per run
   /\ \E s \in Slots : owner[s] = n
   /\ \A s \in Slots : owner[s] # m /\ mig[s] = <<>>
   /\ owner' = [s \in Slots |-> IF owner[s] = n THEN m ELSE owner[s]]
   /\ store' = [store EXCEPT ![m] = store[n], ![n] = [k \in Keys |-> Absent]]
-  /\ up' = [up EXCEPT ![n] = FALSE] /\ failAt' = refreshes
-  /\ UNCHANGED <<mig, table, needRefresh, q, asking, reqs, ref, migs, refreshes>>
+  /\ failAt' = refreshes
+  /\ IF WithDemotion
+       THEN /\ replicaOf' = [replicaOf EXCEPT ![n] = m] /\ UNCHANGED up    \* n stays alive, as a replica of m
+       ELSE /\ up' = [up EXCEPT ![n] = FALSE] /\ UNCHANGED replicaOf
+  /\ UNCHANGED <<mig, table, needRefresh, q, asking, reqs, ref, migs, refreshes, snap, todo, ticks, hasConn, parked>>
 
 (* the second send of handleRedirection's ASK branch *)
 AskSecond(r) ==
   /\ r \in R /\ reqs[r].st = "askpending"
   /\ q' = Enq(q, reqs[r].askTo, [t |-> "cmd", r |-> r])
   /\ reqs' = [reqs EXCEPT ![r].st = "inflight"]
-  /\ UNCHANGED <<owner, mig, store, table, needRefresh, asking, ref, migs, up, refreshes, failAt>>
+  /\ UNCHANGED <<owner, mig, store, table, needRefresh, asking, ref, migs, up, refreshes, failAt, aux>>
 
-(* loopRefreshSlots: rebuild the table from CLUSTER NODES *)
+(* loopRefreshSlots: rebuild the table from CLUSTER NODES (abstraction used where the interleaving of *)
+(* the single writes with routing decisions is not the subject: the whole table changes at once)     *)
 Refresh ==
+  /\ ~StepwiseRefresh
   /\ needRefresh /\ table' = owner /\ needRefresh' = FALSE
   /\ refreshes' = IF WithFailover THEN refreshes + 1 ELSE refreshes   \* only needed to date a failover
-  /\ UNCHANGED <<owner, mig, store, q, asking, reqs, ref, migs, up, failAt>>
+  /\ UNCHANGED <<owner, mig, store, q, asking, reqs, ref, migs, up, failAt, aux>>
+
+(* doSlotsRefresh as the code does it: the answer of CLUSTER NODES is parsed (snap), then the entries *)
+(* are written one by one while the session goroutines keep reading the table without a lock          *)
+RefreshBegin ==
+  /\ StepwiseRefresh /\ needRefresh /\ todo = {}
+  /\ snap' = owner /\ todo' = Slots /\ needRefresh' = FALSE
+  /\ table' = IF ClearBeforeFill THEN [s \in Slots |-> NoNode] ELSE table
+  /\ UNCHANGED <<owner, mig, store, q, asking, reqs, ref, migs, up, refreshes, failAt, ticks, hasConn, parked, replicaOf>>
+
+RefreshWrite(s) ==
+  /\ s \in todo
+  /\ table' = [table EXCEPT ![s] = snap[s]]
+  /\ todo' = todo \ {s}
+  /\ IF todo' = {}
+       THEN /\ snap' = [x \in Slots |-> NoNode]
+            /\ refreshes' = IF WithFailover THEN refreshes + 1 ELSE refreshes
+       ELSE UNCHANGED <<snap, refreshes>>
+  /\ UNCHANGED <<owner, mig, store, needRefresh, q, asking, reqs, ref, migs, up, failAt, ticks, hasConn, parked, replicaOf>>
+
+(* the refresh timer (slotsRefFreq) or a host event fires although no redirection asked for a refresh *)
+Tick ==
+  /\ ticks < MaxTicks /\ ~needRefresh
+  /\ ticks' = ticks + 1 /\ needRefresh' = TRUE
+  /\ UNCHANGED <<owner, mig, store, table, q, asking, reqs, ref, migs, up, refreshes, failAt, snap, todo, hasConn, parked, replicaOf>>
 
 (* operator: migrate slot s to node dst *)
 SetMigrating(s, dst) ==
   /\ WithMigration /\ migs = 0 /\ migs' = 1
   /\ dst # owner[s]
   /\ mig' = [mig EXCEPT ![s] = <<owner[s], dst>>]
-  /\ UNCHANGED <<owner, store, table, needRefresh, q, asking, reqs, ref, up, refreshes, failAt>>
+  /\ UNCHANGED <<owner, store, table, needRefresh, q, asking, reqs, ref, up, refreshes, failAt, aux>>
 
 MigrateKey(k) ==
   /\ LET s == SlotOf[k] IN
        /\ mig[s] # <<>> /\ store[mig[s][1]][k] # Absent
        /\ store' = [store EXCEPT ![mig[s][1]][k] = Absent, ![mig[s][2]][k] = store[mig[s][1]][k]]
-  /\ UNCHANGED <<owner, mig, table, needRefresh, q, asking, reqs, ref, migs, up, refreshes, failAt>>
+  /\ UNCHANGED <<owner, mig, table, needRefresh, q, asking, reqs, ref, migs, up, refreshes, failAt, aux>>
 
 Finalise(s) ==
   /\ mig[s] # <<>> /\ \A k \in Keys : SlotOf[k] = s => store[mig[s][1]][k] = Absent
   /\ owner' = [owner EXCEPT ![s] = mig[s][2]] /\ mig' = [mig EXCEPT ![s] = <<>>]
-  /\ UNCHANGED <<store, table, needRefresh, q, asking, reqs, ref, migs, up, refreshes, failAt>>
+  /\ UNCHANGED <<store, table, needRefresh, q, asking, reqs, ref, migs, up, refreshes, failAt, aux>>
 
-ProxyNext == (\E r \in R : AskSecond(r)) \/ Refresh \/ (\E n \in Nodes : DialError(n))
+RefreshNext == Refresh \/ RefreshBegin \/ (\E s \in Slots : RefreshWrite(s)) \/ Tick
+ProxyNext == (\E r \in R : AskSecond(r)) \/ RefreshNext \/ (\E n \in Nodes : DialError(n)) \/ (\E p \in parked : ParkedResend(p))
 NodeNext == \E n \in Nodes : NodeExec(n)
 EnvNext == (\E op \in {"read", "write"}, k \in Keys : Issue(op, k))
            \/ (\E s \in Slots, d \in Nodes : SetMigrating(s, d)) \/ (\E k \in Keys : MigrateKey(k)) \/ (\E s \in Slots : Finalise(s))
@@ -206,6 +311,24 @@ CopyIsReference == \A k \in Keys : \A n \in Nodes : store[n][k] # Absent => stor
 NoLostKey == \A k \in Keys : ref[k] # Absent => \E n \in Nodes : store[n][k] = ref[k]
 \* with a loaded, current table and no migration the first hop is the owner: no redirection at all (C03)
 FirstHopIsOwner == (~WithMigration /\ ~EmptyTableAtStart /\ ~WithFailover) => \A r \in R : reqs[r].hops = 0
+\* of two commands on the same key that the proxy sent to the same node first, the later one is never executed
+\* first - whatever redirections either of them meets on its way (a client that pipelines SET k 1, SET k 2, GET k
+\* must get the replies a single server gives, and the last write must win). Commands routed by different states
+\* of the table (a refresh in between) are not constrained here.
+RedirectKeepsOrder ==
+  TrackOrder => \A r1, r2 \in R :
+    (r1 < r2 /\ reqs[r1].k = reqs[r2].k /\ reqs[r1].path[1] = reqs[r2].path[1] /\ reqs[r2].applied = 1)
+      => (reqs[r1].applied = 1 \/ reqs[r1].reply = ErrReply)
+\* window predicates (reachability is shown by a configuration that expects them to be violated)
+\* W_RouteDuringRefresh: a command can be routed while the refresher is between two table writes
+NoRouteDuringRefresh == ~(todo # {} /\ todo # Slots /\ Len(reqs) < MaxCmds)
+\* W_RedirectToFreshNode: a node is about to answer MOVED / ASK naming a node the proxy has no connection to,
+\* with a second command for the same key queued behind it
+NoRedirectToFreshNode ==
+  ~ \E n \in Nodes : /\ Len(q[n]) >= 2 /\ Head(q[n]).t = "cmd" /\ q[n][2].t = "cmd"
+                      /\ reqs[Head(q[n]).r].k = reqs[q[n][2].r].k
+                      /\ LET d == Decide(n, reqs[Head(q[n]).r].k, asking[n])
+                         IN d[1] \in {"moved", "ask"} /\ ~hasConn[d[2]]
 \* an error reply only for a request that was routed by a table that did not yet know about the failover
 \* (exp = ErrReply marks those); once the table is current again no request may fail
 ErrorsOnlyWhileStale == \A r \in R : reqs[r].reply = ErrReply => reqs[r].exp = ErrReply
